@@ -28,6 +28,10 @@ pub struct Eval {
 pub trait Engine: Sync + Send {
     fn name(&self) -> &'static str;
     fn eval(&self, bytes: &[u8], trace: bool) -> Eval;
+    /// the decoded case, without running it
+    fn describe(&self, _bytes: &[u8]) -> String {
+        String::new()
+    }
 }
 
 /// C20, second sentence: "a child that stays Pending forever never prevents
@@ -59,6 +63,9 @@ impl Engine for C20Fold {
         }
         ev
     }
+    fn describe(&self, bytes: &[u8]) -> String {
+        self.0.describe(bytes)
+    }
 }
 
 /// Several engines behind one property: the first byte of a case selects the
@@ -84,6 +91,19 @@ impl Engine for MultiEngine {
             r -= *w;
         }
         self.parts.last().unwrap().1.eval(rest, trace)
+    }
+    fn describe(&self, bytes: &[u8]) -> String {
+        let total: u32 = self.parts.iter().map(|p| p.0).sum();
+        let b = bytes.first().cloned().unwrap_or(0) as u32;
+        let mut r = (b * total) >> 8;
+        let rest = if bytes.is_empty() { bytes } else { &bytes[1..] };
+        for (w, e) in &self.parts {
+            if r < *w {
+                return e.describe(rest);
+            }
+            r -= *w;
+        }
+        self.parts.last().unwrap().1.describe(rest)
     }
 }
 
